@@ -51,30 +51,46 @@ N  == NO + NR + NF + NC
 
 DevOf(es, ed) == IF ed = es THEN <<>> ELSE <<ed>>
 
-Line(j) ==
-    IF j <= NO THEN
-        LET o == STab.objs[j] IN
-        [k |-> "obj", i |-> j, id |-> o.id, js |-> o.js, vo |-> o.vo, vn |-> o.vn, grp |-> o.grp, clause |-> o.clause,
-         names |-> S!NamesOf(STab, o.id), mask |-> S!ObjMask(o),
-         exp |-> S!ObjExp(STab, o), dev |-> DevOf(S!ObjExp(STab, o), L!ObjExp(LTab, LTab.objs[j]))]
-    ELSE IF j <= NO + NR THEN
-        LET r == STab.rows[j - NO] IN
-        [k |-> "row", i |-> j, owner |-> r.owner, name |-> r.name, kind |-> r.kind, clause |-> r.clause,
-         exp |-> S!RowExp(STab, r), dev |-> DevOf(S!RowExp(STab, r), L!RowExp(LTab, LTab.rows[j - NO]))]
-    ELSE IF j <= NO + NR + NF THEN
-        LET f == STab.forins[j - NO - NR] IN
-        [k |-> "forin", i |-> j, id |-> f.id, js |-> f.js, note |-> f.note,
-         exp |-> S!ForInExp(STab, f.id), dev |-> DevOf(S!ForInExp(STab, f.id), L!ForInExp(LTab, f.id))]
+(* the lines of a table: ts strict, tl under the open findings (same entries); calls only for the base table *)
+LineOf(ts, tl, j, mut) ==
+    LET no == Len(ts.objs)
+        nr == Len(ts.rows)
+    IN
+    IF j <= no THEN
+        LET o == ts.objs[j] IN
+        [k |-> "obj", i |-> 0, id |-> o.id, js |-> o.js, vo |-> o.vo, vn |-> o.vn, grp |-> o.grp, clause |-> o.clause, mut |-> mut,
+         names |-> S!NamesOf(ts, o.id), mask |-> S!ObjMask(o),
+         exp |-> S!ObjExp(ts, o), dev |-> DevOf(S!ObjExp(ts, o), L!ObjExp(tl, tl.objs[j]))]
+    ELSE IF j <= no + nr THEN
+        LET r == ts.rows[j - no] IN
+        [k |-> "row", i |-> 0, owner |-> r.owner, name |-> r.name, kind |-> r.kind, clause |-> r.clause, mut |-> mut,
+         exp |-> S!RowExp(ts, r), dev |-> DevOf(S!RowExp(ts, r), L!RowExp(tl, tl.rows[j - no]))]
+    ELSE IF j <= no + nr + NF THEN
+        LET f == ts.forins[j - no - nr] IN
+        [k |-> "forin", i |-> 0, id |-> f.id, js |-> f.js, note |-> f.note, mut |-> mut,
+         exp |-> S!ForInExp(ts, f.id), dev |-> DevOf(S!ForInExp(ts, f.id), L!ForInExp(tl, f.id))]
     ELSE
-        LET o == STab.objs[CallIx[j - NO - NR - NF]] IN
-        [k |-> "call", i |-> j, id |-> o.id, call |-> o.call, clause |-> o.clause,
-         exp |-> S!CallExp(o), dev |-> DevOf(S!CallExp(o), L!CallExp(LTab.objs[CallIx[j - NO - NR - NF]]))]
+        LET o == ts.objs[CallIx[j - no - nr - NF]] IN
+        [k |-> "call", i |-> 0, id |-> o.id, call |-> o.call, clause |-> o.clause, mut |-> mut,
+         exp |-> S!CallExp(o), dev |-> DevOf(S!CallExp(o), L!CallExp(tl.objs[CallIx[j - no - nr - NF]]))]
+
+(* the table after the structural mutation of LibShape!MutScript (what the runtime that ran it must show) *)
+STabM == S!MutTab(STab)
+LTabM == L!MutTab(LTab)
+ASSUME S!MutOK(STab)
+NM == Len(STabM.objs) + Len(STabM.rows) + NF          \* objects, own properties, for-in subjects; no calls
+Total == N + NM + 1
+
+Line(j) ==
+    IF j <= N THEN [LineOf(STab, LTab, j, FALSE) EXCEPT !.i = j]
+    ELSE IF j <= N + NM THEN [LineOf(STabM, LTabM, j - N, TRUE) EXCEPT !.i = j]
+    ELSE [k |-> "mutation", i |-> j, js |-> S!MutScript, mut |-> TRUE]
 
 (* parallel evaluation: an initial state is a block, its successors the lines of the block *)
 K == 16
 Init == blk \in 1..K /\ cs = 0
 Next == /\ cs = 0
         /\ UNCHANGED blk
-        /\ \E j \in {i \in 1..N : i % K = blk - 1} : cs' = j
+        /\ \E j \in {i \in 1..Total : i % K = blk - 1} : cs' = j
 Emit == cs = 0 \/ PrintT("VJSON " \o ToJson(Line(cs)))
 =============================================================================
